@@ -431,6 +431,23 @@ class patched:
         return False
 
 
+def size_constants(ctx, modules, floor=1000):
+    """Module-level integer constants >= floor in the given modules (size thresholds
+    that switch between two implementations, retry/iteration limits) become solver
+    integers in [0, value], so that code guarded by `n > THRESHOLD` is reachable on
+    the small inputs the harness can explore.  Scanned from the tree under test on
+    every run; the unchanged tree has none (then the mapping is empty)."""
+    import importlib as il
+
+    mapping = {}
+    for m in modules:
+        mod = il.import_module(m)
+        for name, val in sorted(mod.__dict__.items()):
+            if type(val) is int and val >= floor and not name.startswith("__"):
+                mapping[(m, name)] = ctx.int("K_" + m.rsplit(".", 1)[-1] + "_" + name, 0, val, kind="N")
+    return mapping
+
+
 GEN_MODULES = ["xgi.generators.random", "xgi.generators.uniform", "xgi.generators.simplicial_complexes", "xgi.generators.randomizing"]
 
 
@@ -451,6 +468,7 @@ def rng_env(ctx):
         if "np" in mod.__dict__:
             mapping[(m, "np")] = NPProxy(nr)
     mapping[("xgi.generators.uniform", "int")] = sint
+    mapping.update(size_constants(ctx, GEN_MODULES))
     return patched(mapping), r, nr
 
 
